@@ -225,6 +225,44 @@ static void do_E(char **save){
   bufr_free_dataset(dts);
 }
 
+/* A <comp> <message hex> <nsub> {tok.. |}..   decode the message, append nsub subsets (values in wire order) to the DECODED
+   dataset, encode it with <comp>:  "A rc=.. comp=<flag of the new message> invalid=.. msg=<hex> ; S0 .." as for E.
+   (a decoded dataset carries the flags of the message it came from, e.g. COMPRESSED) */
+static void do_A(char **save){
+  int comp = atoi(strtok_r(NULL," ",save)); char *hex = strtok_r(NULL," ",save);
+  int nsub = atoi(strtok_r(NULL," ",save)), rc = 0, s;
+  static unsigned char in[1<<22]; int n = unhex(hex, in);
+  BUFR_Message *m0 = NULL; BUFR_Dataset *dts = NULL;
+  if(bufr_memread_message((char*)in, n, &m0) <= 0 || !m0){ printf("A rc=-1\n"); return; }
+  dts = bufr_decode_message(m0, tables);
+  bufr_free_message(m0);
+  if(!dts){ printf("A rc=-2\n"); return; }
+  for(s=0;s<nsub && rc==0;s++){
+    static char *toks[200000]; int nt=0; char *tk;
+    while((tk=strtok_r(NULL," ",save)) && strcmp(tk,"|")) { if(nt<200000) toks[nt++]=tk; }
+    h_aborted=0; h_abort_armed=1; exit_called=0; exit_armed=1;
+    if(setjmp(h_abort_jmp)==0 && setjmp(exit_jmp)==0){
+      int pos = bufr_create_datasubset(dts);
+      rc = fill_subset(dts,pos,toks,nt);
+    } else rc = exit_called ? -3 : -4;
+    h_abort_armed=0; exit_armed=0;
+  }
+  if(rc){ printf("A rc=%d\n", rc); bufr_free_dataset(dts); return; }
+  BUFR_Message *m = NULL;
+  h_aborted=0; h_abort_armed=1; exit_called=0; exit_armed=1;
+  if(setjmp(h_abort_jmp)==0 && setjmp(exit_jmp)==0) m = bufr_encode_message(dts, comp);
+  else rc = exit_called ? -3 : -4;
+  h_abort_armed=0; exit_armed=0;
+  if(rc || !m){ printf("A rc=%d\n", rc?rc:-5); if(!rc) bufr_free_dataset(dts); return; }   /* after exit()/abort the dataset may be half-written: leave it */
+  ssize_t len = bufr_memwrite_message(msgbuf, sizeof msgbuf, m);
+  printf("A rc=0 comp=%d invalid=%d msg=", (m->s3.flag & BUFR_FLAG_COMPRESSED)?1:0, (dts->data_flag & BUFR_FLAG_INVALID)?1:0);
+  puthex(stdout,(unsigned char*)msgbuf,len);
+  list_dataset(dts);
+  printf("\n");
+  bufr_free_message(m);
+  bufr_free_dataset(dts);
+}
+
 /* M <dest_pos> <src_pos> <nb> <dataset spec of dest> @@ <dataset spec of src>    spec = <ed> <n> <desc>.. <nsub> {tok.. |}..
    -> "M rc=<return of bufr_merge_dataset or build error> ; S0 .. ; S1 .." (the destination after merging) */
 static void do_M(char **save){
@@ -334,6 +372,7 @@ int main(void){
       printf("MTABLES %d %d\n", r1, r2); }
     else if(!strcmp(tok,"TABLES")){ char *a=strtok_r(NULL," ",&save), *b=strtok_r(NULL," ",&save); load_tables(a,b); printf("TABLES ok\n"); }
     else if(!strcmp(tok,"E")) do_E(&save);
+    else if(!strcmp(tok,"A")) do_A(&save);
     else if(!strcmp(tok,"T")) do_T(&save);
     else if(!strcmp(tok,"D")) do_D(&save);
     else if(!strcmp(tok,"R")) do_R(&save);
